@@ -404,6 +404,11 @@ package oidc
 //@   modifies ghost PoolAdded, ghost HashIn, above(watermark())
 //@   ensures  fetched: result1 == nil ==> result0 != nil && JwksFetched(config.GetJwksFetcher().JwksUri, result0)
 
+// the sweep over all sessions (not called by the service itself): lock discipline only (C16), under the
+// store's well-formedness
+//@ func (*memoryStore).RemoveAllExpired
+//@   requires wf: m != nil && m.log != nil && m.clock != nil && m.sessions != nil && !held(addr(m.mu))
+
 // ---------------------------------------------------------------------------------------------
 // randomGenerator implements SessionGenerator (C06): every identifier is a fixed function of the
 // bytes of one crypto/rand.Read and of nothing else (not of the time, the request or other draws).
